@@ -422,6 +422,27 @@ func runC19(cx *Ctx, r *Report) {
 			r.toolErr("no run-time write of the record counter found (AddRecord confirmed)")
 		}
 	}
+	// read-back: the answer to a lookup by id comes from the store and nothing else. A
+	// process-local memo of lookups (a map or sync.Map in the keeper) can serve a stale
+	// "not found" for an id that was looked up before its record was committed.
+	{
+		var roots []*ssa.Function
+		for _, e := range cx.entriesOfModule("record", "query") {
+			roots = append(roots, e.Fn)
+		}
+		for _, f := range cx.gettersOf("record", []string{recPrefix}) {
+			roots = append(roots, f)
+		}
+		if len(roots) < 2 {
+			r.toolErr("record read path: %d query handlers / getters of the record prefix found (≥2 confirmed)", len(roots))
+		}
+		uses := cx.processStateUses(roots)
+		pos := ""
+		if len(uses) > 0 {
+			pos = strings.SplitN(uses[0], " ", 2)[0]
+		}
+		r.check(len(uses) == 0, "read-back-from-store", "record", pos, fmt.Sprintf("the %d query handlers and getters of the record prefix use no process-local state: a lookup is answered from the store", len(roots)), "the record read path uses process-local state ("+strings.Join(uses, "; ")+"): an answer can come from this process's memory instead of the store, e.g. a memoised 'not found' for an id whose record was committed later")
+	}
 	// message surface
 	entries := cx.entriesOfModule("record", "msg")
 	r.check(len(entries) == 1 && entries[0].Name == "CreateRecord", "msg-surface", "record", "", "the record Msg service has the single rpc CreateRecord", fmt.Sprintf("record Msg service has %d rpcs (expected only CreateRecord): a new rpc needs review against immutability", len(entries)))
